@@ -1781,3 +1781,213 @@ func retryLaterNotWrapped(c *Ctx, rule string) {
 	}
 	c.AtLeast(rule, "constructions of retriable-later errors", n, 3)
 }
+
+// protectionFlagTrusted (C17): CR protection can be switched off only by credential.protectProtocol in the
+// user's own Git configuration. A .lfsconfig travels with the repository: whatever is read from a file or a blob
+// is restricted to the safe keys (the C11 source rule, shared), and no credential.* key is among them.
+func protectionFlagTrusted(c *Ctx, rule string) {
+	p := c.P
+	old := c.RulePrefix
+	c.RulePrefix = old + "C11/"
+	c11Sources(c)
+	c.RulePrefix = old
+	safe, pos, ok := stringSliceGlobal(p, "config", "safeKeys")
+	if !ok {
+		c.Missing(rule, "config.safeKeys", "allow-list table not found")
+		return
+	}
+	good := true
+	for _, k := range safe {
+		if strings.HasPrefix(strings.ToLower(k), "credential.") {
+			good = false
+		}
+	}
+	c.Check(good, rule, "safeKeys:no-credential-keys", p.Pos(pos), "no credential.* key can be set from .lfsconfig", "a credential.* key is on the .lfsconfig allow-list: a repository can switch CR protection off or name a credential helper")
+}
+
+// lockPathIsRepoRelative (C16): lock paths are relative to the repository root whatever the current directory;
+// the file whose write bit lock/unlock fixes is <working dir of the repository>/<path>, never the path resolved
+// against the process's current directory.
+func lockPathIsRepoRelative(c *Ctx, rule string) {
+	p := c.P
+	fn := p.Fn("locking", "(*Client).getAbsolutePath")
+	if fn == nil {
+		c.Missing(rule, "(*locking.Client).getAbsolutePath", "not found")
+		return
+	}
+	n := 0
+	for _, r := range ReturnsOf(fn) {
+		for _, v := range ReturnValues(r, 0) {
+			if s, ok := ConstString(v); ok && s == "" {
+				continue // error return
+			}
+			n++
+			good := false
+			if jc, _, ok := CallResult(v); ok && CalleeName(jc.Common()) == "path/filepath.Join" {
+				els := variadicOrdered(jc.Call.Args[0])
+				if len(els) >= 2 && els[0] != nil && IsLoadOfField(els[0], "locking.Client", "LocalWorkingDir") {
+					for _, e := range els[1:] {
+						if e != nil && len(fn.Params) > 1 && SameVar(e, fn.Params[1]) {
+							good = true
+						}
+					}
+				}
+			}
+			c.Check(good, rule, "lock-path:joined-to-repository-root", p.InstrPos(r), "the absolute path of a lock is LocalWorkingDir joined with the repository-relative path",
+				"the file a lock refers to is not resolved against the repository's working directory: from a sub-directory lock/unlock fix the write bit of a different (or no) file while the server-side lock changes")
+		}
+	}
+	c.AtLeast(rule, "results of getAbsolutePath", n, 1)
+}
+
+// redirectKeepsRequest (C18): an API call that is redirected is the same call sent elsewhere: same method, same
+// body. The request built for the next hop takes its method from the original request's Method field only, and
+// every successful return of newRequestForRetry has copied Body and ContentLength from the original request.
+// (Turning a redirected batch POST into a body-less GET — "303 See Other" semantics — sends the server a request
+// that is not a batch request at all.)
+func redirectKeepsRequest(c *Ctx, rule string) {
+	p := c.P
+	fn := p.Fn("lfshttp", "newRequestForRetry")
+	if fn == nil || len(fn.Params) == 0 {
+		c.Missing(rule, "lfshttp.newRequestForRetry", "not found")
+		return
+	}
+	isMethodLoad := func(v ssa.Value) bool { return IsLoadOfField(v, "net/http.Request", "Method") }
+	n := 0
+	for _, ci := range CallsIn(fn, "net/http.NewRequest", "net/http.NewRequestWithContext") {
+		n++
+		a := CallArgs(ci.Common())
+		m := a[0]
+		if CalleeName(ci.Common()) == "net/http.NewRequestWithContext" {
+			m = a[1]
+		}
+		good, why := true, ""
+		leaves := p.LeavesUp(m, func(v ssa.Value) FlowAct {
+			if isMethodLoad(v) {
+				return Stop
+			}
+			return Descend
+		})
+		for _, l := range leaves {
+			if !isMethodLoad(l) {
+				good = false
+				if s, ok := ConstString(l); ok {
+					why = "it can be the constant " + strconv.Quote(s)
+				} else {
+					why = "it can come from " + l.String()
+				}
+			}
+		}
+		if len(leaves) == 0 {
+			good, why = false, "its origin could not be determined"
+		}
+		c.Check(good, rule, "redirect:method-is-the-original-method", p.InstrPos(ci), "the next hop's method is the original request's Method", "the method of a redirected request is not always the original request's method ("+why+"): a redirected batch, lock or verify POST is re-sent as a different kind of request")
+	}
+	c.AtLeast(rule, "requests built in newRequestForRetry", n, 1)
+	req := fn.Params[0]
+	for _, field := range []string{"Body", "ContentLength"} {
+		good, where := true, ""
+		found := false
+		for _, ex := range RunCount(CountQuery{Fn: fn, NoRet: noReturnCommands, Event: func(in ssa.Instruction) CSet {
+			st, ok := in.(*ssa.Store)
+			if !ok {
+				return 0
+			}
+			fa, ok := st.Addr.(*ssa.FieldAddr)
+			if !ok {
+				return 0
+			}
+			if tn, f := fieldAddrName(fa); tn != "net/http.Request" || f != field {
+				return 0
+			}
+			if tn, f, base, ok := FieldOf(st.Val); ok && tn == "net/http.Request" && f == field && SameVar(base, req) {
+				found = true
+				return C1
+			}
+			return 0
+		}}) {
+			if ex.Kind != "return" || ex.Set&C0 == 0 {
+				continue
+			}
+			r := ex.Instr.(*ssa.Return)
+			for _, v := range ReturnValues(r, -1) {
+				if IsNilConst(v) {
+					good, where = false, ex.Desc(p)
+				}
+			}
+		}
+		c.Check(good && found, rule, "redirect:carries-"+field, p.Pos(fn.Pos()), "every successful return has copied "+field+" from the original request",
+			"newRequestForRetry can return a request without the original request's "+field+" ("+where+"): the redirected API call arrives without its JSON body")
+	}
+}
+
+// trackMapKeys (C19): `track` merges new lines into the existing file through a map keyed by the *unescaped*
+// pattern: an existing line is looked up under the unescaped form of its first field and, once replaced in
+// place, removed from the map under that same key. A delete under a different key is a no-op, and the line is
+// written a second time at the end of the file, where it overrides more specific lines that followed the original.
+func trackMapKeys(c *Ctx, rule string) {
+	p := c.P
+	root := p.Fn("commands", "trackCommand")
+	if root == nil {
+		c.Missing(rule, "commands.trackCommand", "not found")
+		return
+	}
+	n := 0
+	for _, fn := range WithAnon(root) {
+		for _, b := range fn.Blocks {
+			for _, in := range b.Instrs {
+				cc, ok := in.(*ssa.Call)
+				if !ok {
+					continue
+				}
+				bi, isB := cc.Call.Value.(*ssa.Builtin)
+				if !isB || bi.Name() != "delete" {
+					continue
+				}
+				m, k := cc.Call.Args[0], cc.Call.Args[1]
+				// the lookup whose ok-edge leads here
+				var lk *ssa.Lookup
+				for _, bb := range fn.Blocks {
+					for _, i2 := range bb.Instrs {
+						if l, ok := i2.(*ssa.Lookup); ok && l.CommaOk && SameVar(l.X, m) && bb.Dominates(b) {
+							lk = l
+						}
+					}
+				}
+				if lk == nil {
+					continue
+				}
+				n++
+				same := SameValue(lk.Index, k) || SameVar(lk.Index, k)
+				c.Check(same, rule, "track:replaced-line-removed-under-its-lookup-key#"+itoa(n), p.InstrPos(cc), "the entry is deleted under the key it was found under",
+					"an existing .gitattributes line is looked up under one key and deleted under another: for patterns whose file spelling is escaped (spaces, #) the delete does nothing, the line is written again at the end of the file and overrides later, more specific lines for other paths")
+			}
+		}
+	}
+	c.AtLeast(rule, "guarded deletes in trackCommand", n, 1)
+}
+
+// blocklistLooksAtBaseName (C19): the names `track` refuses (.gitattributes, .gitignore, .gitmodules, .lfsconfig
+// — prefixes ".git" and ".lfs") are file names; the test runs on the base name of the path. Applied to every
+// path component it also refuses ordinary files below directories such as .github/, and the whole pattern is
+// skipped.
+func blocklistLooksAtBaseName(c *Ctx, rule string) {
+	p := c.P
+	fn := p.Fn("commands", "blocklistItem")
+	if fn == nil || len(fn.Params) == 0 {
+		c.Missing(rule, "commands.blocklistItem", "not found")
+		return
+	}
+	n := 0
+	for _, ci := range CallsIn(fn, "strings.HasPrefix", "strings.EqualFold", "strings.Contains", "strings.HasSuffix") {
+		a := CallArgs(ci.Common())
+		n++
+		good := false
+		if bc, _, ok := CallResult(a[0]); ok && CalleeName(bc.Common()) == "path/filepath.Base" && SameVar(bc.Call.Args[0], fn.Params[0]) {
+			good = true
+		}
+		c.Check(good, rule, "blocklist:tested-on-base-name", p.InstrPos(ci), "the forbidden-name test runs on filepath.Base(name)",
+			"the forbidden-name test of `track` does not run on the base name of the path: files below ordinary directories whose name starts like a forbidden file (.github/, .gitlab/) make track refuse the whole pattern")
+	}
+	c.AtLeast(rule, "name tests in blocklistItem", n, 1)
+}
